@@ -74,8 +74,9 @@ func NewVoteDriver(n int, symmetry bool, full bool) *VoteDriver {
 	kinds := []string{"setA", "setB", "cheque", "chequeBig", "alphaUpd", "alphaShrink", "alphaDrop0", "candRm"}
 	deltas := []uint32{1, 19, 20, 21}
 	if !full {
-		kinds = []string{"setA", "setB", "cheque"}
-		deltas = []uint32{1, 21}
+		// (n = 5..7, thorough tier) every one of the four methods has its own copy of the threshold arithmetic
+		kinds = []string{"setA", "setB", "cheque", "alphaUpd", "candRm"}
+		deltas = []uint32{1, 20, 21}
 		d.MaxAdv = 2
 	}
 	for _, k := range kinds {
